@@ -154,6 +154,7 @@ class AirTouchSocket(Generic[comms.Hdr]):
 
         self.is_open = False
         self.is_connected = False
+        self._connecting = False
 
         self._background_tasks: set[asyncio.Task[Any]] = set()
 
@@ -293,15 +294,21 @@ class AirTouchSocket(Generic[comms.Hdr]):
         task.add_done_callback(discard_task)
 
     async def _connect(self) -> None:
-        if self.is_connected:
-            _LOGGER.debug("_connect ignored. Already connected")
+        if self.is_connected or self._connecting:
+            _LOGGER.debug("_connect ignored. Already connected or connecting")
             return
 
         _LOGGER.debug("Attempting to open connection to %s:%d", self.host, self.port)
         try:
-            self._reader, self._writer = await asyncio.open_connection(
-                host=self.host, port=self.port
-            )
+            # Only one connection attempt may be in flight at a time, otherwise
+            # two resets in quick succession would open (and leak) two sockets.
+            self._connecting = True
+            try:
+                self._reader, self._writer = await asyncio.open_connection(
+                    host=self.host, port=self.port
+                )
+            finally:
+                self._connecting = False
 
             self.is_connected = True
             _LOGGER.debug("Connected to %s:%d", self.host, self.port)
